@@ -104,7 +104,7 @@ def judge(case, ctx, ds, successor):
 
 
 def reach(counters, tier, info):
-    k = 1 if tier == "quick" else 20
+    k = 0.5 if tier == "quick" else 20
     out = []
     for name, key, need in [("consensuses judged", "accepted", 2000 * k), ("cases with at least one equality", "with_equality", 500 * k),
                             ("cases with a pair never ranked together", "unranked_driven", 300 * k),
